@@ -129,6 +129,7 @@ type run struct {
 	uuidCount    int
 	stash        map[string]value
 	stubs        map[string]value
+	pin          map[string]string
 	atomicDepth  int
 }
 
@@ -231,6 +232,11 @@ func (r *run) fresh(kind string, label string, sort Sort) *sym {
 	r.nvars++
 	r.solver.Declare(name, sort)
 	r.vars = append(r.vars, varDecl{Name: name, Label: label, Kind: kind, sort: sort})
+	if r.pin != nil {
+		if v, ok := r.pin[name]; ok && v != "" {
+			r.solver.Assert("(= " + name + " " + v + ")")
+		}
+	}
 	return &sym{name, sort}
 }
 
